@@ -113,3 +113,6 @@ Proof.
   - apply Z.eqb_neq in E. replace (a + p <? 0) with false by (symmetry; apply Z.ltb_ge; lia).
     rewrite Z.abs_eq by lia. rewrite round_p2_mag by lia. reflexivity.
 Qed.
+
+(* a finite double with a + sign *)
+Definition posfin (x : fl) : Prop := exists u, x = FFin false u.
